@@ -275,20 +275,26 @@ Definition chk (v : value) (leaves : list (list string * value)) : bool :=
             ctx.violation("history-roundtrip:flow", "FlowHistory reloaded differs", {})
         # ---------------- (d) transforms
         from aspire import transforms as T
-        X = np.random.default_rng(ctx.rng.randrange(1 << 30)).uniform(0.2, 1.8, size=(12, 2))
+        # parameter names NOT in alphabetical order and a different interval for each (HDF5 groups iterate alphabetically: a
+        # loader that relies on the stored order of a dictionary would hand a parameter another parameter's bounds)
+        names = ["w", "b", "m"]
+        lo_, hi_ = np.asarray([0.0, -5.0, 10.0]), np.asarray([2.0, 1.0, 40.0])
+        X = lo_ + np.random.default_rng(ctx.rng.randrange(1 << 30)).uniform(0.1, 0.9, size=(12, 3)) * (hi_ - lo_)
         for nsname in NS:
             for width in ("float32", "float64"):
                 xp, dt = NS[nsname], nsutil.native_dtype(nsname, width)
-                bounds = {"p0": (0.0, 2.0), "p1": (0.0, 2.0)}
+                bounds = {k: (float(a), float(b)) for k, a, b in zip(names, lo_, hi_)}
                 objs = {
                     "Identity": T.IdentityTransform(xp=xp, dtype=dt),
-                    "Periodic": T.PeriodicTransform(np.zeros(2), 2 * np.ones(2), xp=xp, dtype=dt),
-                    "Logit": T.LogitTransform(np.zeros(2), 2 * np.ones(2), xp=xp, dtype=dt, eps=1e-5),
-                    "Probit": T.ProbitTransform(np.zeros(2), 2 * np.ones(2), xp=xp, dtype=dt, eps=1e-5),
+                    "Periodic": T.PeriodicTransform(lo_, hi_, xp=xp, dtype=dt),
+                    "Logit": T.LogitTransform(lo_, hi_, xp=xp, dtype=dt, eps=1e-5),
+                    "Probit": T.ProbitTransform(lo_, hi_, xp=xp, dtype=dt, eps=1e-5),
                     "Affine": T.AffineTransform(xp=xp, dtype=dt),
-                    "Composite": T.CompositeTransform(parameters=["p0", "p1"], periodic_parameters=["p0"], prior_bounds=bounds,
+                    "Composite": T.CompositeTransform(parameters=names, periodic_parameters=["w"], prior_bounds=bounds,
                                                       bounded_to_unbounded=True, bounded_transform="logit", affine_transform=True, xp=xp, dtype=dt),
-                    "FlowTransform": T.FlowTransform(parameters=["p0", "p1"], prior_bounds=bounds, bounded_transform="probit", xp=xp, dtype=dt),
+                    "Composite-noaffine": T.CompositeTransform(parameters=names, prior_bounds=dict(reversed(list(bounds.items()))),
+                                                               bounded_to_unbounded=True, bounded_transform="probit", affine_transform=False, xp=xp, dtype=dt),
+                    "FlowTransform": T.FlowTransform(parameters=names, prior_bounds=bounds, bounded_transform="probit", xp=xp, dtype=dt),
                 }
                 for name, tr in objs.items():
                     if ctx.quick and ctx.rng.random() < 0.4:
